@@ -529,6 +529,11 @@ class SigmaDetections:
             raise sigma_exceptions.SigmaDetectionError(
                 "No detections defined in Sigma rule", source=self.source
             )
+        for name in self.detections:
+            if not isinstance(name, str):
+                raise sigma_exceptions.SigmaDetectionError(
+                    f"Detection identifier {name!r} must be a string", source=self.source
+                )
         if self.condition == [] or self.condition is None:
             raise sigma_exceptions.SigmaConditionError(
                 "Sigma rule must contain at least one condition", source=self.source
